@@ -175,7 +175,9 @@ def run_traces(ctx, rm, cfg, nsim, nrandom, nevents, seed_base, maxitems=6, maxc
       sc = []
       if variant:
         # the destinations were up first: losing the last one pauses the receivers
-        sc += [('ConnMade', d) for d in range(1, nd + 1)] + [('ConnLost', d) for d in range(1, nd + 1)]
+        # (with datapoints queued behind paused transports: the queue of the LAST destination to go has nowhere to be re-routed to)
+        sc += [('ConnMade', d) for d in range(1, nd + 1)] + [('TPause', d) for d in range(1, nd + 1)] + [('Arrive', 0)] * 3
+        sc += [('ConnLost', d) for d in range(1, nd + 1)]
         for r in range(1, mr):
           sc += [('RetryTimer', d) for d in range(1, nd + 1)] + [('ConnFailed', d) for d in range(1, nd + 1)]
       else:
